@@ -1,11 +1,117 @@
 (* Props/C08.v — The server never waits for client input while it owes a reply.
-   Only statements (interim; the invariant at every suspension point is added as Async/ConnReads.v completes). *)
-From FV Require Import Base.Bytes Gen.Generated Parser.ReqModel Parser.ReqTargets Parser.StreamModel Async.Conn Async.ConnWrites Async.ConnTotal.
+   Only statements.  Model: Async/Conn.v (scripted world: gated client segments = a peer that withholds further
+   records until it has seen the replies it waits for; PBlock = Pending without a wake-up).  Proofs: Async/ConnTotal.v
+   (totality), Async/ConnReads.v (accounting at every suspension point).  R is the reply specification of
+   Parser/StreamSpec.v: the replies owed for a byte string by a parser in a given state. *)
+From FV Require Import Base.Bytes Gen.Generated Parser.ReqModel Parser.ReqTargets Parser.StreamModel Parser.AbsStream Parser.StreamSpec Parser.StreamRefine Parser.StreamInv Async.Conn Async.ConnWrites Async.ConnTotal Async.ConnReads.
 
-(* the only way the task can be suspended without a pending wake-up is a transport read that a GATED
-   client does not satisfy: never a panic, a spin, or a wait on anything else *)
-Theorem C08_only_waits_for_client : forall (norm : bytes -> bytes) (maxc : N) scripts B w0,
-  world_ok w0 -> scripts_ok true scripts -> B < SIZE_LIMIT - 8 ->
-  exists w, run_loop norm maxc (nb w0 + 4) (new_parser B) scripts 0 w0 = (ORet, w) \/
-            (run_loop norm maxc (nb w0 + 4) (new_parser B) scripts 0 w0 = (ODeadlock, w) /\ ~ ungated w0).
+(* ==== pinned from the proof files (tools/write_props.py) ==== *)
+
+(* the only way the task can be suspended without a pending wake-up is a transport read that a GATED client
+   does not satisfy: never a panic, a spin, or a wait on anything else *)
+Theorem C08_only_waits_for_client :
+  forall (norm : bytes -> bytes) (maxc : N) (scripts : list (list N)) (B : N) (w0 : world),
+  world_ok w0 ->
+  scripts_ok true scripts ->
+  B < SIZE_LIMIT - 8 ->
+  exists w : world,
+    run_loop norm maxc (nb w0 + 4) (new_parser B) scripts 0 w0 = (ORet, w) \/
+    run_loop norm maxc (nb w0 + 4) (new_parser B) scripts 0 w0 = (ODeadlock, w) /\ ~ ungated w0.
 Proof. exact run_loop_total. Qed.
+
+(* inside a handler's read (poll_input): a suspension without wake-up happens only with NOTHING OWED: the
+   parser's output buffer is empty, everything it produced is in the transport's log (wlog w' = wlog w ++
+   flushed, and flushed ++ what is still owed for the undelivered bytes = what was owed before), nothing is
+   owed for the bytes already received (R .. [] = []), no stream data is withheld from the handler, and the
+   client's next bytes are gated *)
+Theorem C08_poll_input_block :
+  forall (maxc : N) (fuel : nat) (dest : option N) (r : rstate) (w : world) (r' : rstate) (w' : world),
+  pinv (rsp r) ->
+  bytes_ok (remaining w) ->
+  (length (wscript w) + length (remaining w) + 2 <= fuel)%nat ->
+  poll_input maxc fuel dest r w = (PBlock, r', w') ->
+  output_buffer (rsp r') = [] /\
+  stream_buffer (rsp r') = [] /\
+  gated w' /\
+  R maxc (abs (rsp r')) [] = [] /\
+  K (abs (rsp r)) (remaining w) = K (abs (rsp r')) (remaining w') /\
+  (exists flushed : list N,
+     wlog w' = wlog w ++ flushed /\
+     a_out (abs (rsp r')) = [] /\
+     R maxc (abs (rsp r)) (remaining w) = flushed ++ R maxc (abs (rsp r')) (remaining w')).
+Proof. exact poll_input_block. Qed.
+
+(* the awaited form: a deadlock inside poll_fn(poll_input) has exactly that shape *)
+Theorem C08_await_input_deadlock :
+  forall (maxc : N) (fuel : nat) (dest : option N) (r : rstate) (w w' : world),
+  pinv (rsp r) ->
+  bytes_ok (remaining w) ->
+  await_input maxc fuel dest r w = Halt ODeadlock w' ->
+  gated w' /\
+  (exists (r' : rstate) (flushed : list N),
+     output_buffer (rsp r') = [] /\
+     stream_buffer (rsp r') = [] /\
+     R maxc (abs (rsp r')) [] = [] /\
+     wlog w' = wlog w ++ flushed /\
+     R maxc (abs (rsp r)) (remaining w) = flushed ++ R maxc (abs (rsp r')) (remaining w') /\
+     K (abs (rsp r)) (remaining w) = K (abs (rsp r')) (remaining w')).
+Proof. exact await_input_deadlock. Qed.
+
+(* a parse call that reports neither stream data nor end-of-stream stops only when it is stuck on incomplete
+   input (the fact behind 'nothing owed for received bytes') *)
+Theorem C08_quiet_call_is_stuck :
+  forall (maxc : N) (a : ast) (new : bytes) (dest : option N) (a' : ast) (s : status),
+  a_inv a ->
+  legal a new dest ->
+  dest <> Some 0 ->
+  aparse maxc a new dest = AOk a' s ->
+  s_end s = false -> s_stream s = 0 -> forall o : bytes, R maxc (set_out a' o) [] = o.
+Proof. exact aparse_quiet. Qed.
+
+(* between requests (Token::parse_request): a deadlock happens only in the read, with every reply produced by
+   every parse call made so far completely written, and nothing else written *)
+Theorem C08_parse_request_deadlock :
+  forall (norm : bytes -> bytes) (maxc : N) (fuel : nat) (p : parser) (new : bytes) (w w' : world),
+  parse_request norm maxc fuel p new w = Halt ODeadlock w' ->
+  gated w' /\ (exists outs : list bytes, pr_chain norm maxc p new outs /\ wlog w' = wlog w ++ concat outs).
+Proof. exact parse_request_deadlock. Qed.
+
+(* parse_request reads only after its write_all returned Ok *)
+Theorem C08_read_after_flush :
+  forall (norm : bytes -> bytes) (maxc : N) (f : nat) (p : parser) (new : bytes) 
+    (w : world) (p' : parser) (out : bytes),
+  parse norm maxc p new = POk p' false out ->
+  match await_write_all (io_fuel w (len out)) true out w with
+  | Ok (Some k) w1 => parse_request norm maxc (S f) p new w = Ok (inr k) w1
+  | Ok None w1 =>
+      wlog w1 = wlog w ++ out /\
+      remaining w1 = remaining w /\
+      parse_request norm maxc (S f) p new w =
+      match await_read (io_fuel w1 0) true (input_space p') w1 with
+      | Ok (inl []) w'' => Ok (inr EK_Reset) w''
+      | Ok (inl ((_ :: _) as b)) w'' => parse_request norm maxc f p' b w''
+      | Ok (inr k) w'' => Ok (inr k) w''
+      | Halt o w'' => Halt o w''
+      end
+  | Halt o w1 => parse_request norm maxc (S f) p new w = Halt o w1 /\ o <> ODeadlock
+  end.
+Proof. exact parse_request_read_after_flush. Qed.
+
+(* while skipping to a record boundary in close(): a deadlock happens only strictly inside a record the client
+   has not finished; nothing was written, all replies are still accounted for (their flush is deferred to
+   close, which is why the peer of the property — one that sends whole records — cannot deadlock here) *)
+Theorem C08_record_boundary_deadlock :
+  forall (maxc : N) (fuel : nat) (new : bytes) (r : rstate) (w w' : world),
+  pinv (rsp r) ->
+  bytes_ok new ->
+  len new <= sinput_space (rsp r) ->
+  bytes_ok (remaining w) ->
+  boundary_loop maxc fuel new r w = Halt ODeadlock w' ->
+  gated w' /\
+  wlog w' = wlog w /\
+  (exists p' : sp,
+     pinv p' /\
+     is_record_boundary p' = false /\
+     sreq p' = sreq (rsp r) /\ R maxc (abs (rsp r)) (new ++ remaining w) = R maxc (abs p') (remaining w')).
+Proof. exact boundary_loop_deadlock. Qed.
+
